@@ -237,7 +237,11 @@ def evaluate__mod_operator(self: XPathToken, context: ta.ContextType = None) \
             elif math.isinf(op2):
                 return type(result)(op1)
             return type(result)(math.fmod(op1, op2))
-        return op1 % op2  # type: ignore[operator]
+
+        with decimal.localcontext() as ctx:
+            # the remainder is exact: it needs room for the digits of the integer quotient
+            ctx.prec = max(ctx.prec, decimal.Decimal(op1).adjusted() + 2)
+            return op1 % op2  # type: ignore[operator]
     except TypeError as err:
         raise self.error('FORG0006', err) from None
     except (ZeroDivisionError, decimal.InvalidOperation):
